@@ -18,7 +18,8 @@ THEOREMS = [
     "CKT.C11.measBlock_spec", "CKT.C11.measurementInstrs_measures", "CKT.C11.appendMeasurementLoc_identity",
 ]
 RULE = ("Pauli lists on 1-6 qubits (duplicates, all-identity, mutually anticommuting sets, up to 40 entries) through ObservableCollection, "
-        "most_general_observable on compatible and incompatible lists, measurement circuits for every group on random preparation circuits; "
+        "most_general_observable (and the construct_general_observables hook) on compatible and incompatible lists incl. members clashing on 1-4 qubits "
+        "(even clash counts commute as a whole), measurement circuits for every group on random preparation circuits; "
         "non-trivial = some non-identity letter; distinct by payload")
 ASSUMPTIONS = ["PauliList.unique / group_commuting(qubit_wise=True) are Qiskit's: their output is validated per run by checkCollection (soundness proved)",
                "failing-input search decodes the measurement circuit's exact outcome distribution under the reference simulator"]
@@ -35,7 +36,51 @@ def _ps(p):
     return {"l": lab[len(lab) - n:][::-1], "p": int(p.phase)}
 
 
+def _clash_cases():
+    """Deterministic family (seed independent): lists handed directly to the general-observable builder whose members clash on 1, 2, 3, 4
+    qubits -- an even number of clashes commutes as a whole (XX/ZZ, XY/YX, ...), an odd number anticommutes; qubit-wise compatibility is
+    neither.  Also clashes that only appear against the accumulated general observable of the earlier members, clashes next to agreeing
+    qubits, duplicates, and the compatible counterpart of each shape; through the bare function and through the public hook
+    ObservableCollection.construct_general_observables."""
+    out = []
+
+    def add(labels, via="function", num_qubits=None):
+        n = len(labels[0])
+        out.append(("general", {"n": n, "members": [{"l": l, "p": 0} for l in labels], "num_qubits": num_qubits, "via": via,
+                                "always_oracle": True}))
+    pairs = [("X", "Z"), ("X", "Y"), ("Y", "Z"), ("Z", "X")]
+    # two members clashing on exactly k of n qubits (the rest agree or are identity on one side)
+    for k in (1, 2, 3, 4):
+        for j, (a, b) in enumerate(pairs[:3] if k != 2 else pairs):
+            add([a * k, b * k], via=("function", "hook")[(j + k) % 2])
+    add(["XY", "YX"]); add(["XY", "YX"], via="hook"); add(["XX", "YY"], num_qubits=2); add(["ZY", "YZ"], via="hook")
+    add(["XXZ", "ZZZ"]); add(["XXI", "ZZY"], via="hook"); add(["IXYZ", "IYXZ"]); add(["XZXZ", "ZXZX"], via="hook")
+    # the clash is against the accumulated general observable, not against any single earlier member
+    add(["XI", "IZ", "ZX"]); add(["XI", "IZ", "ZX"], via="hook"); add(["XII", "IYI", "IIZ", "ZZZ"]); add(["XII", "IYI", "YXI"], via="hook")
+    add(["XX", "XX", "ZZ"]); add(["II", "XX", "II", "ZZ"], via="hook"); add(["XX", "ZZ", "XX"])
+    # compatible counterparts (must be accepted, per-qubit union)
+    add(["XX", "XX"]); add(["XI", "IZ", "XZ"], via="hook"); add(["XYI", "IYZ"]); add(["IIII", "XZXZ", "XIXI"], via="hook")
+    return out
+
+
+def _rand_clash_cases(rng, tier):
+    """Random lists with a prescribed number of clashing qubits (own generator stream position: yielded after all other cases)."""
+    for _ in range(40 if tier == "quick" else 600):
+        n = rng.randint(2, 6)
+        gl = "".join(rng.choice("XYZ") for _ in range(n))
+        members = [{"l": "".join(rng.choice([g, g, "I"]) for g in gl), "p": 0} for _ in range(rng.randint(1, 3))]
+        k = rng.randint(1, n)
+        qs = rng.sample(range(n), k)
+        members.append({"l": "".join((rng.choice([c for c in "XYZ" if c != gl[i]]) if i in qs else rng.choice([gl[i], "I"])) for i in range(n)), "p": 0})
+        if rng.random() < 0.7:
+            members.insert(0, {"l": gl, "p": 0})   # then the clash is real on every chosen qubit; otherwise the list may be compatible
+        rng.shuffle(members)
+        via = rng.choice(["function", "hook"])
+        yield ("general", {"n": n, "members": members, "num_qubits": rng.choice([None, n]) if via == "function" else None, "via": via})
+
+
 def cases(rng, tier):
+    yield from _clash_cases()
     yield from _wide_cases(rng, tier)
     for n in (1, 2, 3):
         # groups with nothing to measure (the forced dummy measurement)
@@ -85,6 +130,7 @@ def cases(rng, tier):
                            "locs": locs, "ncirc": ncirc,
                            # classical registers that exist before the observable register is appended
                            "cregs": rng.choice([[], [], [["qpd_measurements", 2]], [["flag", 1]], [["a", 1], ["b", 3]]])})
+    yield from _rand_clash_cases(rng, tier)
 
 
 def _wide_cases(rng, tier):
@@ -140,7 +186,12 @@ def run_real(kind, payload):
     if kind == "general":
         nq = payload["num_qubits"]
         ms = [Pauli(["", "-i", "-", "i"][m["p"]] + m["l"][::-1]) for m in payload["members"]]
-        out = most_general_observable(ms, num_qubits=nq)
+        if payload.get("via") == "hook":
+            # the public hook that builds the general observable of each caller-supplied group (no num_qubits argument)
+            from qiskit_addon_cutting.utils.observable_grouping import ObservableCollection
+            (out,) = ObservableCollection.construct_general_observables([list(ms)])
+        else:
+            out = most_general_observable(ms, num_qubits=nq)
         return {"ok": _ps(out)}
     if kind == "collection":
         _collection(payload)
@@ -240,7 +291,13 @@ def oracle(kind, payload):
         bad = (not ms) or any(len(m["l"]) != n for m in ms)
         comp = not bad and all(len({m["l"][q] for m in ms} - {"I"}) <= 1 for q in range(n))
         if bad or not comp:
-            return None if real.get("error") == "ValueError" else f"incompatible/invalid list not refused: {real}"
+            if real.get("error") == "ValueError":
+                return None
+            if not bad:
+                clash = [q for q in range(n) if len({m["l"][q] for m in ms} - {"I"}) > 1]
+                return (f"incompatible/invalid list not refused: members {[m['l'] for m in ms]} are not qubit-wise compatible (they clash on "
+                        f"qubit(s) {clash}) but a general observable was returned: {real}")
+            return f"incompatible/invalid list not refused: {real}"
         if "error" in real:
             return f"compatible list refused: {real}"
         exp = "".join(next((m["l"][q] for m in ms if m["l"][q] != "I"), "I") for q in range(n))
